@@ -7,6 +7,7 @@ import (
 	"path/filepath"
 	"sort"
 	"strings"
+	"time"
 
 	"pgregory.net/rapid"
 )
@@ -118,8 +119,9 @@ func (s *Sim) ApplyEdit(op Op) EditInfo {
 	m := s.M
 	info := EditInfo{Class: op.Kind}
 	all := m.Live()
+	backdate := ""
 	switch op.Kind {
-	case "src-new", "src-same", "src-recreate", "src-revert", "src-rm", "src-unreadable":
+	case "src-new", "src-same", "src-recreate", "src-revert", "src-rm", "src-unreadable", "src-backdated":
 		ids := m.liveWhere(func(t *Target) bool { return len(t.Sources) > 0 })
 		id := pick(ids, op.T)
 		if id < 0 {
@@ -128,6 +130,14 @@ func (s *Sim) ApplyEdit(op Op) EditInfo {
 		t := &m.Targets[id]
 		f := m.Rel(t.Pkg, t.Sources[op.I%len(t.Sources)])
 		switch op.Kind {
+		case "src-backdated":
+			// new contents that arrive with an old modification time (cp -p, tar x, rsync -t, mv of an older file)
+			if m.Files[f] == op.S || m.Files[f] == SymlinkLoop {
+				return info
+			}
+			m.Files[f] = op.S
+			info.Semantic = true
+			backdate = f
 		case "src-new":
 			if m.Files[f] == op.S {
 				info.Class = "src-same"
@@ -454,6 +464,10 @@ func (s *Sim) ApplyEdit(op Op) EditInfo {
 		return info
 	}
 	s.Sync()
+	if backdate != "" {
+		old := time.Date(2001, 2, 3, 4, 5, 6, 0, time.UTC)
+		os.Chtimes(filepath.Join(s.Env.Root(), filepath.FromSlash(backdate)), old, old)
+	}
 	return info
 }
 
@@ -620,7 +634,7 @@ var longPrefix = strings.Repeat("shared prefix 0123456789 ", 8)
 
 var contentPool = []string{"one\n", "two\n", longPrefix + "A\n", "three", longPrefix + "B\n", "", "one\n", longPrefix + "A\n", "one\ntwo\n", longPrefix + "C"}
 
-var semanticEdits = []string{"src-rm", "src-new", "const", "body", "helper-const", "helper-code", "dir-add", "dir-del", "dir-rename", "dir-edit", "dep-add", "dep-del", "ord-add", "ord-del", "ord-add", "src-add", "src-del", "gen-del", "flag", "src-revert", "const", "src-new", "const-alias"}
+var semanticEdits = []string{"src-rm", "src-new", "const", "body", "helper-const", "helper-code", "dir-add", "dir-del", "dir-rename", "dir-edit", "dep-add", "dep-del", "ord-add", "ord-del", "ord-add", "src-add", "src-del", "gen-del", "flag", "src-revert", "const", "src-new", "const-alias", "src-backdated"}
 var noopEdits = []string{"src-same", "src-recreate", "comment", "blank", "doc", "unrelated-src", "dir-recreate"}
 
 // GenEdit draws an edit op of the given class list.
